@@ -271,16 +271,53 @@ for j in job["items"]:
     after = os.stat(mf).st_mtime_ns if os.path.exists(mf) else None
     r["module_reused"] = before is not None and before == after
     res.append(r)
-json.dump(res, open(sys.argv[2], "w"))
+from mako.lookup import TemplateLookup
+sets = []
+for st_ in job.get("sets", []):
+    lk = TemplateLookup()
+    for u, src in st_["templates"].items():
+        lk.put_string(u, src)
+    try:
+        sets.append(["ok", lk.get_template(st_["entry"]).render_unicode(**st_["ctx"])])
+    except Exception as e:
+        sets.append(["exc", type(e).__name__])
+json.dump({"items": res, "sets": sets}, open(sys.argv[2], "w"))
 '''
+
+
+def namespace_sets(k):
+    """template sets whose meaning must not depend on set/dict iteration order: several namespaces importing the same names"""
+    sets = []
+    for variant in range(3):
+        names = [["alpha", "beta", "gamma"], ["zeta", "eta", "theta", "iota"], ["n1", "n2", "n3", "n4", "n5"]][variant]
+        T = {}
+        tags = []
+        for i, n in enumerate(names):
+            T["/c08s_%d_%d_%s.html" % (k, variant, n)] = '<%%def name="greet()">%s-greet</%%def><%%def name="only_%s()">%s</%%def>' % (n, n, n.upper())
+            imp = "*" if i % 2 == 0 else "greet, only_%s" % n
+            tags.append('<%%namespace name="%s" file="/c08s_%d_%d_%s.html" import="%s"/>' % (n, k, variant, n, imp))
+        body = "${greet()}|" + "".join("${only_%s()}" % n for n in names) + "|${x}"
+        entry = "/c08s_%d_%d_entry.html" % (k, variant)
+        T[entry] = "".join(tags) + body
+        sets.append({"templates": T, "entry": entry, "ctx": {"x": "x"}})
+    return sets
 
 
 def run_children(batch, d, ev, fails):
     if not batch:
         return
+    from mako.lookup import TemplateLookup
+
+    sets = namespace_sets(next(_k))
+    expect_sets = []
+    for st_ in sets:
+        lk = TemplateLookup()
+        for u, src in st_["templates"].items():
+            lk.put_string(u, src)
+        expect_sets.append(list(_run(lambda: lk.get_template(st_["entry"]).render_unicode(**st_["ctx"]))))
     job = os.path.join(d, "job.json")
     with open(job, "w") as fh:
-        json.dump({"items": batch, "moddir": os.path.join(d, "mod")}, fh)
+        json.dump({"items": batch, "moddir": os.path.join(d, "mod"), "sets": sets}, fh)
     child = os.path.join(d, "child.py")
     with open(child, "w") as fh:
         fh.write(CHILD)
@@ -290,7 +327,15 @@ def run_children(batch, d, ev, fails):
         r = subprocess.run([sys.executable, child, job, outp], env=env, stdout=subprocess.PIPE, stderr=subprocess.STDOUT, text=True)
         if r.returncode != 0:
             raise core.HarnessError("child failed: " + r.stdout[-2000:])
-        res = json.load(open(outp))
+        doc = json.load(open(outp))
+        res = doc["items"]
+        for st_, exp, got in zip(sets, expect_sets, doc["sets"]):
+            case = {"part": "nsset", "set": st_, "seed": seed}
+            if got != exp:
+                f = Failure(case, "PYTHONHASHSEED=%s renders the namespace-import set as %r, the parent (seed 0) as %r\n%s" % (
+                    seed, got, exp, st_["templates"][st_["entry"]]), "child-differs:namespace-imports")
+                fails.setdefault(f.key, f)
+            ev.case(key=[st_["entry"], seed], nontrivial=True, labels=("child:nsset",))
         for item, got in zip(batch, res):
             case = {"part": "child", "src": item["src"], "seed": seed}
             for what in ("fresh", "reload"):
@@ -391,6 +436,19 @@ def replay(case):
                 check_cli(case, ev, d)
             elif part == "collision":
                 check_collision(ev, fails)
+            elif part == "nsset":
+                from mako.lookup import TemplateLookup
+
+                st_ = case["set"]
+                outs = set()
+                for seed in SEEDS + ["3", "5", "7", "11"]:
+                    code = ("import sys,os,json; sys.path.insert(0, os.environ['VERIF_REPO']); from mako.lookup import TemplateLookup; st=json.loads(sys.argv[1]); lk=TemplateLookup();\n"
+                            "[lk.put_string(u, s) for u, s in st['templates'].items()]; print(lk.get_template(st['entry']).render_unicode(**st['ctx']))")
+                    r = subprocess.run([sys.executable, "-c", code, json.dumps(st_)], env=dict(os.environ, PYTHONHASHSEED=seed, VERIF_REPO=core.REPO),
+                                       stdout=subprocess.PIPE, stderr=subprocess.STDOUT, text=True)
+                    outs.add(r.stdout.strip())
+                if len(outs) > 1:
+                    return Failure(case, "rendering depends on PYTHONHASHSEED: %r" % sorted(outs), "child-differs:namespace-imports")
             elif part == "child":
                 batch = []
                 prog_src = case["src"]
